@@ -11,7 +11,8 @@ Threads
             (enqueueCommitRequest: closed test, wait for space, ring push) → `wait` (req.Wait)
     read:   `rd`  (one atomic read of the store)
 * one commit worker: `wpop` (first pop of a batch), `wmore` (further pops while the limits
-  allow), `wapply` (applyRequests, one request per step, in batch order), `wack`
+  allow), `wapply` (applyRequests, one request per step, in batch order), `wfail` (the LSM write of the next
+  request fails: it and every request behind it in the batch get the error, unapplied), `wack`
   (finishCommitRequests, one request per step), `wexit` (acquireItem returns false)
 * `Close`: 0 →(cq.close)→ 1 →(commitWG.Wait)→ 2 →(lsm.Close: throttle released, memtables
   gone)→ 3 →(isClosed := 1, return)→ 4
@@ -68,29 +69,41 @@ structure QCfg where
       (as-is: `req.DecrRef()` releases the entries, the caller releases them again ⇒ panic) -/
   enqFailKeepsRef : Bool
   getClosed : GetClosed
+  /-- `applyRequests` returns at the first request whose LSM write fails: the requests behind
+      it in the commit batch are not applied (and get the error, like the failing one) -/
+  applyStopsAtFailure : Bool
+  /-- when `req.Wait()` reports a pipeline error the caller does not release the entry a
+      second time (as-is: `setEntry` does ⇒ the call panics instead of returning the error) -/
+  waitErrKeepsRef : Bool
+  /-- `GetCF` hides exactly tombstones and expired entries (`isDeletedOrExpired(Meta, ExpiresAt)`),
+      not entries with a zero-length value -/
+  getDeletedStd : Bool
   deriving DecidableEq, Repr
 
 def QCfg.good : QCfg :=
   { tooBigCountOp := .ge, tooBigSizeOp := .ge, batchCountOp := .lt, batchSizeOp := .lt,
     thrLoopChecksClosed := true, closeReleasesThrottle := true, singleWorker := true,
     fifoPop := true, ackAfterApply := true, pathOrderStd := true, closeOrderStd := true,
-    enqChecksClosed := true, enqFailKeepsRef := true, getClosed := .closedErr }
+    enqChecksClosed := true, enqFailKeepsRef := true, getClosed := .closedErr,
+    applyStopsAtFailure := true, waitErrKeepsRef := true, getDeletedStd := true }
 
 /-- The structural facts every theorem needs (the two finding flags are kept apart). -/
 def QCfg.Struct (c : QCfg) : Prop :=
   c.singleWorker = true ∧ c.ackAfterApply = true ∧ c.pathOrderStd = true ∧
   c.closeOrderStd = true ∧ c.enqChecksClosed = true ∧
-  c.thrLoopChecksClosed = true ∧ c.closeReleasesThrottle = true
+  c.thrLoopChecksClosed = true ∧ c.closeReleasesThrottle = true ∧
+  c.applyStopsAtFailure = true ∧ c.getDeletedStd = true
 
 instance QCfg.decStruct (c : QCfg) : Decidable c.Struct := by unfold QCfg.Struct; exact inferInstance
 
 /-- C34 needs both repairs. -/
-def QCfg.Good (c : QCfg) : Prop := c.Struct ∧ c.enqFailKeepsRef = true ∧ c.getClosed = .closedErr
+def QCfg.Good (c : QCfg) : Prop :=
+  c.Struct ∧ c.enqFailKeepsRef = true ∧ c.getClosed = .closedErr ∧ c.waitErrKeepsRef = true
 
 instance QCfg.decGood (c : QCfg) : Decidable c.Good := by unfold QCfg.Good; exact inferInstance
 
 /-- C37 needs the write-path repair only. -/
-def QCfg.GoodLive (c : QCfg) : Prop := c.Struct ∧ c.enqFailKeepsRef = true
+def QCfg.GoodLive (c : QCfg) : Prop := c.Struct ∧ c.enqFailKeepsRef = true ∧ c.waitErrKeepsRef = true
 
 instance QCfg.decGoodLive (c : QCfg) : Decidable c.GoodLive := by unfold QCfg.GoodLive; exact inferInstance
 
@@ -127,13 +140,13 @@ def Op.isWrite : Op → Bool
 
 inductive Res where
   | ok | val (v : Val) | notfound
-  | emptykey | hot | toobig | blocked | closedErr
+  | emptykey | hot | toobig | blocked | closedErr | ioerr
   | panic
   deriving DecidableEq, Repr
 
 /-- error returns a call may legitimately produce (no effect). `panic` is not one. -/
 def Res.isErr : Res → Bool
-  | .emptykey | .hot | .toobig | .blocked | .closedErr => true
+  | .emptykey | .hot | .toobig | .blocked | .closedErr | .ioerr => true
   | _ => false
 
 /-- The abstract per-key register store: newest binding first, `none` = tombstone. -/
@@ -165,11 +178,12 @@ structure Client where
   op : Op := .get []
   lin : Option Res := none   -- ghost
   acked : Bool := false
+  failed : Bool := false     -- the commit pipeline reported an error for this request
   postClose : Bool := false  -- ghost: the call was issued after Close returned
   deriving DecidableEq, Repr
 
 inductive WPh where
-  | idle | collect | applying | acking | done
+  | idle | collect | applying | failing | acking | done
   deriving DecidableEq, Repr
 
 structure St where
@@ -179,6 +193,8 @@ structure St where
   batch : List Nat := []
   applied : List Nat := []
   wph : WPh := .idle
+  limCount : Nat := 0       -- limits of the batch being collected (fixed at its first pop)
+  limSize : Nat := 0
   clPc : Nat := 0
   throttle : Bool := false
   hotCnt : List (Key × Nat) := []
@@ -191,14 +207,14 @@ def St.init (n : Nat) : St := { clients := List.replicate n {} }
 inductive Act where
   | call (t : Nat) (op : Op)
   | cstep (t : Nat)
-  | wpop | wmore | wapply | wack | wexit
+  | wpop | wmore | wapply | wfail | wack | wexit
   | close
   | thrOn | thrOff
   deriving DecidableEq, Repr
 
 /-- steps of the system itself (everything but the environment's) -/
 def Act.internal : Act → Bool
-  | .cstep _ | .wpop | .wmore | .wapply | .wack | .wexit | .close => true
+  | .cstep _ | .wpop | .wmore | .wapply | .wfail | .wack | .wexit | .close => true
   | _ => false
 
 /-! ### helpers -/
@@ -227,13 +243,21 @@ def tooBig (c : QCfg) (p : Params) (op : Op) : Bool :=
 def batchBytes (p : Params) (cl : List Client) (b : List Nat) : Nat :=
   (b.map (fun t => match cl[t]? with | some c => entrySize p c.op | none => 0)).sum
 
+/-- `nextCommitBatch`: the count/size limits of a batch, adapted to the backlog seen when the
+batch is started (`backlog > limitCount ⇒ factor = min(max(backlog/limitCount,1),4)`) -/
+def batchLimits (p : Params) (backlog : Nat) : Nat × Nat :=
+  if backlog > p.wbCount ∧ p.wbCount > 0 then
+    let f := min (max (backlog / p.wbCount) 1) 4
+    (min (p.wbCount * f) backlog, p.wbSize * f)
+  else (p.wbCount, p.wbSize)
+
 def St.setClient (s : St) (t : Nat) (cl : Client) : St := { s with clients := s.clients.set t cl }
 
 def St.emit (s : St) (evs : List Ev) : St := { s with hist := s.hist ++ evs }
 
 /-- return `r` from client `cl` (slot `t`) -/
 def St.ret (s : St) (t : Nat) (cl : Client) (r : Res) : St :=
-  { s with clients := s.clients.set t { cl with pc := .idle, lin := none, acked := false },
+  { s with clients := s.clients.set t { cl with pc := .idle, lin := none, acked := false, failed := false },
            hist := s.hist ++ [.ret t r],
            pcRets := if cl.postClose then s.pcRets ++ [r] else s.pcRets }
 
@@ -265,7 +289,9 @@ def clientStep (c : QCfg) (p : Params) (s : St) (t : Nat) (cl : Client) : Option
       some ({ s with queue := s.queue ++ [t] }.setClient t { cl with pc := .wait })
     else none
   | .wait =>
-    if cl.acked then some (s.ret t cl .ok) else none
+    if cl.acked then
+      some (s.ret t cl (if cl.failed then (if c.waitErrKeepsRef then .ioerr else .panic) else .ok))
+    else none
   | .rd =>
     if s.clPc < 3 then
       let r := Store.read s.store cl.op.key
@@ -296,11 +322,13 @@ def step (c : QCfg) (p : Params) (s : St) : Act → Option St
     if s.wph = .idle then
       match s.queue with
       | [] => none
-      | t :: q => some { s with queue := q, batch := [t], wph := .collect }
+      | t :: q => some { s with queue := q, batch := [t], wph := .collect,
+                                limCount := (batchLimits p s.queue.length).1,
+                                limSize := (batchLimits p s.queue.length).2 }
     else none
   | .wmore =>
-    if s.wph = .collect ∧ c.batchCountOp.nat s.batch.length p.wbCount
-        ∧ c.batchSizeOp.nat (batchBytes p s.clients s.batch) p.wbSize then
+    if s.wph = .collect ∧ c.batchCountOp.nat s.batch.length s.limCount
+        ∧ c.batchSizeOp.nat (batchBytes p s.clients s.batch) s.limSize then
       match s.queue with
       | [] => none
       | t :: q => some { s with queue := q, batch := s.batch ++ [t] }
@@ -318,6 +346,21 @@ def step (c : QCfg) (p : Params) (s : St) : Act → Option St
                         batch := b, applied := s.applied ++ [t],
                         wph := if b = [] then .acking else .applying,
                         hist := s.hist ++ [.lin t .ok] }
+    else none
+  | .wfail =>
+    -- the LSM write of the head of the batch fails (or the batch is already failing):
+    -- stop-at-first-failure — this request and every request behind it get the error,
+    -- none of them is applied
+    if (s.wph = .collect ∨ s.wph = .applying ∨ s.wph = .failing) ∧ c.applyStopsAtFailure then
+      match s.batch with
+      | [] => none
+      | t :: b =>
+        match s.clients[t]? with
+        | none => none
+        | some cl =>
+          some { s with clients := s.clients.set t { cl with failed := true },
+                        batch := b, applied := s.applied ++ [t],
+                        wph := if b = [] then .acking else .failing }
     else none
   | .wack =>
     if s.wph = .acking then
